@@ -410,9 +410,13 @@ def rule_rl_rank(prog: Program, report: Report, anchors: list[tuple[str, str]]) 
                 desc = False
                 for ev in p.events:
                     n = ev.node
+                    pairs = []
                     if ev.kind == "assign" and isinstance(n, ast.Assign) and len(n.targets) == 1 and isinstance(n.targets[0], ast.Name):
-                        t = n.targets[0].id
-                        v = n.value
+                        pairs.append((n.targets[0].id, n.value))
+                    elif isinstance(n, ast.AST) and not isinstance(n, ast.stmt):
+                        # `(node := node.child(i)).is_text` inside a test rebinds the cursor too
+                        pairs += [(w.target.id, w.value) for w in ast.walk(n) if isinstance(w, ast.NamedExpr) and isinstance(w.target, ast.Name)]
+                    for t, v in pairs:
                         root = v
                         steps = []
                         while isinstance(root, (ast.Attribute, ast.Call)):
